@@ -196,6 +196,23 @@ thread_local! {
     pub static SUGAR: std::cell::Cell<bool> = const { std::cell::Cell::new(false) };
 }
 
+/// `let (x, y) = v in match x | +K(p) => match y | +L(q) => leaf ...` where the leaves use neither
+/// `x` nor `y`: printable as one match over tuple patterns
+fn nested_match_shape(x: usize, y: usize, body: &C) -> bool {
+    let C::Case(V::Var(sx), _, outer, _) = body else { return false };
+    if *sx != x || outer.is_empty() {
+        return false;
+    }
+    outer.iter().all(|(_, _, inner)| match inner {
+        | C::Case(V::Var(sy), _, arms, _) if *sy == y && !arms.is_empty() => arms.iter().all(|(_, _, leaf)| {
+            let mut fv = std::collections::HashSet::new();
+            crate::c07::fv_c(leaf, &mut fv);
+            !fv.contains(&x) && !fv.contains(&y)
+        }),
+        | _ => false,
+    })
+}
+
 /// the leading `fn` chain of a computation: parameters and the body below them
 fn fn_chain(mut m: &C) -> (Vec<(usize, &VTy)>, &C) {
     let mut params = Vec::new();
@@ -210,6 +227,17 @@ impl C {
     pub fn src(&self) -> String {
         let sugar = SUGAR.with(|s| s.get());
         match self {
+            | C::LetPair(x, y, v, body) if sugar && nested_match_shape(*x, *y, body) => {
+                let C::Case(_, _, outer, b) = &**body else { unreachable!() };
+                let mut arms = String::new();
+                for (k1, p, inner) in outer {
+                    let C::Case(_, _, inner_arms, _) = inner else { unreachable!() };
+                    for (k2, q, leaf) in inner_arms {
+                        arms.push_str(&format!(" | (+{k1}(x{p}), +{k2}(x{q})) => {}", leaf.src()));
+                    }
+                }
+                format!("(match {}{arms} end : {})", v.src(), b.src())
+            }
             | C::Fn(..) if sugar => {
                 let (params, body) = fn_chain(self);
                 let ps: Vec<String> = params.iter().map(|(x, a)| format!("(x{x} : {})", a.src())).collect();
@@ -592,7 +620,7 @@ impl<'r> Gen<'r> {
     pub fn gen_c(&mut self, ty: &CTy, ctx: &Ctx, size: usize) -> C {
         if size > 2 && self.rng.chance(2, 3) {
             // elimination / sequencing forms, available at every type
-            match self.rng.below(9) {
+            match self.rng.below(10) {
                 | 0 | 1 => {
                     let a = self.small_vty(1, self.sig.datas.len(), None);
                     let x = self.fresh();
@@ -665,6 +693,39 @@ impl<'r> Gen<'r> {
                     let n = self.gen_c(ty, ctx, size / 2);
                     self.feat("cmp");
                     return C::Cmp(t, op, a, b, ty.clone(), Box::new(y), Box::new(n));
+                }
+                | 9 => {
+                    // a pair of data values taken apart by two nested matches: with sugared printing
+                    // this is one match over tuple patterns with refutable components
+                    let d1 = self.rng.below(self.sig.datas.len() as u64) as usize;
+                    let d2 = self.rng.below(self.sig.datas.len() as u64) as usize;
+                    let v = self.gen_v(&VTy::Prod(Box::new(VTy::Data(d1)), Box::new(VTy::Data(d2))), ctx, size / 2);
+                    let (x, y) = (self.fresh(), self.fresh());
+                    let (c1, c2) = (self.sig.datas[d1].clone(), self.sig.datas[d2].clone());
+                    let share = size / (c1.len() * c2.len() + 1);
+                    let mut outer = Vec::new();
+                    for (k1, a1) in c1 {
+                        let p = self.fresh();
+                        let mut inner = Vec::new();
+                        for (k2, a2) in c2.clone() {
+                            let q = self.fresh();
+                            let mut ctx2 = ctx.clone();
+                            ctx2.push((p, a1.clone()));
+                            ctx2.push((q, a2));
+                            inner.push((k2, q, self.gen_c(ty, &ctx2, share)));
+                        }
+                        for i in (1..inner.len()).rev() {
+                            let j = self.rng.below((i + 1) as u64) as usize;
+                            inner.swap(i, j);
+                        }
+                        outer.push((k1, p, C::Case(V::Var(y), d2, inner, ty.clone())));
+                    }
+                    for i in (1..outer.len()).rev() {
+                        let j = self.rng.below((i + 1) as u64) as usize;
+                        outer.swap(i, j);
+                    }
+                    self.feat("nested_match");
+                    return C::LetPair(x, y, v, Box::new(C::Case(V::Var(x), d1, outer, ty.clone())));
                 }
                 | 7 => {
                     // force a thunk of this type (possibly a variable: a closure that escaped)
